@@ -26,7 +26,7 @@ REQUIRED = {"C14": {"healthy-package": 200, "fault:duplicate": 30, "fault:defaul
                     "select:none": 30, "period-api": 200, "period-run": 60, "iteration-checked": 2000, "after-disable-silent": 100,
                     "other-modes-silent-checked": 200, "chooser-options-checked": 200, "disable-after-run-silent": 30, "disable-mid-run": 15, "reselected-between-periods": 50, "elapsed-time-checked": 500,
                     "mode-class-imported-from-library-module": 20, "run-period-of-1ms": 5,
-                    "fault-is-a-BaseException": 10, "period-without-disable": 20, "missing-dotted-package": 3, "falsy-mode-object-chosen": 5}}
+                    "fault-is-a-BaseException": 10, "namespace-package": 30, "run-with-watchdog": 20, "run-iter_fn:none": 10, "run-iter_fn:list": 10, "period-without-disable": 20, "missing-dotted-package": 3, "falsy-mode-object-chosen": 5}}
 ASSUMPTIONS = {"C14": ["a mode class re-exported by a second module is not generated (the statement does not say whether it is found twice)",
                        "a mode class that exactly one package module imports from a module outside the package counts as 'found in the modules of the package'",
                        "with several DEFAULT modes and the FMS attached the preselected mode may be any of them",
@@ -133,8 +133,11 @@ def gen_case(rng, uid):
             its = rng.choice([1, 2, 5, 15])
             periods.append({"iterations": its, "period_us": rng.choice([20000, 5000, 50000, 1000, 20000]),
                             "end": rng.choice(["disabled", "teleop", "exit"]), "disable_after": rng.random() < 0.6,
-                            "disable_at": rng.randrange(0, its) if rng.random() < 0.25 else None})
-    return {"uid": uid, "pkg": pkg, "missing": missing, "modules": modules, "fault": applied, "fms": fms, "select": sel,
+                            "disable_at": rng.randrange(0, its) if rng.random() < 0.25 else None,
+                            "iter_fn": rng.choice(["fn", "fn", "list", "none"]), "watchdog": rng.choice([None, None, "simple", "wpilib"])})
+            if periods[-1]["iter_fn"] == "none":
+                periods[-1]["disable_at"] = None
+    return {"uid": uid, "pkg": pkg, "namespace_pkg": rng.random() < 0.12, "missing": missing, "modules": modules, "fault": applied, "fms": fms, "select": sel,
             "reselect": rng.random() < 0.5,
             "sel_seed": rng.randrange(1 << 30), "style": style, "periods": periods}
 
@@ -150,7 +153,8 @@ def write_package(case, root):
         return
     pkg = os.path.join(root, case["pkg"])
     os.makedirs(pkg)
-    open(os.path.join(pkg, "__init__.py"), "w").close()
+    if not case.get("namespace_pkg"):
+        open(os.path.join(pkg, "__init__.py"), "w").close()       # (else an implicit namespace package: a directory of modules)
     lib_src = ["import vf.sel_rt as rt", ""]
     for m in case["modules"]:
         src = ["import vf.sel_rt as rt", ""]
@@ -289,6 +293,8 @@ def run_case(acc, case):
         faults = A["faults"]
         for f in faults:
             acc.ev("fault:" + f)
+        if case.get("namespace_pkg") and not case["missing"]:
+            acc.ev("namespace-package")
         if case["missing"]:
             acc.ev("missing-package")
             if "." in case["pkg"]:
@@ -542,9 +548,26 @@ def run_run_period(acc, case, selector, period, chosen, chosen_name, e):
             selector.disable()
             marks["log_len"] = len(sel_rt.LOG)
 
+    kw = {}
+    how = period.get("iter_fn", "fn")
+    if how == "fn":
+        kw["iter_fn"] = iter_fn
+    elif how == "list":
+        kw["iter_fn"] = [iter_fn, lambda: None]          # the documented "function or list of functions"
+    if period.get("watchdog") == "simple":
+        from robotpy_ext.misc.simple_watchdog import SimpleWatchdog
+        kw["watchdog"] = SimpleWatchdog(P / 1e6)
+    elif period.get("watchdog") == "wpilib":
+        import wpilib
+        kw["watchdog"] = wpilib.Watchdog(P / 1e6, lambda: None)
+    if kw.get("watchdog") is not None:
+        acc.ev("run-with-watchdog")
+    if how != "fn":
+        acc.ev("run-iter_fn:" + how)
+
     def target():
         try:
-            selector.run(P / 1e6, iter_fn=iter_fn)
+            selector.run(P / 1e6, **kw)
         except BaseException as ex:  # noqa
             box["exc"] = ex
         finally:
@@ -583,7 +606,7 @@ def run_run_period(acc, case, selector, period, chosen, chosen_name, e):
     if "exc" in box:
         acc.violation("C14/run-raised", f"run() raised {box['exc']!r}", case, {})
         return "violation"
-    if len(iters) != n_seen:
+    if how != "none" and len(iters) != n_seen:
         acc.violation("C14/iter_fn-count", f"run(): iter_fn ran {len(iters)} times in {n_seen} loop iterations", case, {})
         return "violation"
     if "log_len" in marks:
